@@ -27,7 +27,7 @@ CHECKS = {
    note="Trusted: check_c08_timing/check_prefix in vlib/tokmodel.py. split() laziness is covered by chk_split (C05) where claimed."),
  "C12": dict(engine="SCHED", design="3.3, 4 (C12-C14)",
    technique="stateless model checking of the real worker threads under a controlled scheduler: all interleavings at queue/start/join granularity (state-cached DFS, persistent-set reduction for local steps), all timeout firings up to K, line-granularity schedules with bounded preemptions",
-   text="The real TokenizerWorker and observer threads (recording observers, PrintWorker) run under a baton scheduler that owns Queue.put/get/get_nowait, Thread.start/join. For every stream of <=4 (5) windows x 5 (8) observer sets, every interleaving and every pattern of <=2 (3) queue-wait timeouts is executed; each must end with all threads finished by themselves, no crash, and every observer having processed exactly split()'s detections once, in order, ids 1..n equal to the worker's detections list. A line-level pass (every line of workers.py a scheduling point, <=1 (2) preemptions) checks the assumption that threads interact only through queues.",
+   text="The real TokenizerWorker and observer threads (recording observers, PrintWorker) run under a baton scheduler that owns Queue.put/get/get_nowait and Thread.start/join/is_alive of Worker instances. For every stream of <=4 (5) windows x 5 (8) observer sets, every interleaving and every pattern of <=2 (3) queue-wait timeouts is executed; each must end with all threads finished by themselves, no crash, and every observer having processed exactly split()'s detections once, in order, ids 1..n equal to the worker's detections list. A line-level pass (every line of workers.py a scheduling point, <=1 (2) preemptions) checks the assumption that threads interact only through queues.",
    note="Trusted: vlib/sched.py (scheduler, replay-determinism self-test on every exploration, failures re-executed before being reported). Not modelled: bytecode-level preemption inside a line; more than K timeouts; real time."),
  "C13": dict(engine="SCHED", design="3.3, 4 (C12-C14)",
    technique="stateless model checking of reader thread vs writer thread (StreamSaverWorker) and the file-writing observers under all interleavings, cache sizes and timeout firings; preemption-bounded line-level pass",
@@ -91,23 +91,23 @@ EXTRA = {
  "C01": " Frame kinds rotate over (index,flag) tuples, characters, PCM windows and falsy / zero-length objects ([], '', 0, ()). Plus directed large rows (not exhaustive): streams of 300 (1000) frames, lengths around powers of two, silence runs around 128/256, a phase sweep of cut positions 0..135, max_length up to 1030. Reused tokenizers (every kind of earlier use on every short stream) and two tokenizers alive at once with different tuples, stepped alternately, are judged by the same oracle; constructor calls rotate over positional, defaulted and keyword spellings.",
  "C02": " Plus the same directed large rows as C01 (long streams, max_length up to 1030). The constructor table is repeated with the optional arguments omitted and with keyword arguments; reused and sibling tokenizers as in C01.",
  "C03": " Plus the same directed large rows as C01. Reused and sibling tokenizers as in C01.",
- "C04": " Every other case is repeated with falsy / zero-length frame objects; list mode is compared with generator mode on the directed large rows (lengths that are multiples of 256, streams ending inside an event). Reused and sibling tokenizers as in C01.",
- "C05": " Inputs rotate over split(bytes), AudioRegion.split and a region that itself carries a start time; every interleaving of two live split() generators (same configuration) must leave each unaffected; directed large rows: 400-window recordings, 70-window events starting at every window index 0..130 at 48 kHz/20 ms, 100 Hz/10 ms and 44.1 kHz/10 ms. Inputs also rotate over standard input (all at once, trickling behind a BufferedReader, and through a real pipe with a file descriptor); 32-bit recordings are full scale.",
+ "C04": " Every other case is repeated with falsy / zero-length frame objects; list mode is compared with generator mode on the directed large rows (lengths that are multiples of 256, streams ending inside an event). Reused and sibling tokenizers as in C01. The call-order validator is also run over a stream whose frames are all the very same object.",
+ "C05": " Inputs rotate over split(bytes), AudioRegion.split and a region that itself carries a start time; every interleaving of two live split() generators (same configuration) must leave each unaffected; directed large rows: 400-window recordings, 70-window events starting at every window index 0..130 at 48 kHz/20 ms, 100 Hz/10 ms and 44.1 kHz/10 ms. Inputs also rotate over standard input (all at once, trickling behind a BufferedReader, and through a real pipe with a file descriptor); 32-bit recordings are full scale. Further inputs: a region carrying a start split by its own method; max_read ending inside a window.",
  "C06": " Plus window counts of 127..1024 (directed rows) and an overlapping AudioReader (hop = block/2) whose w is still its block duration. The non-reader input rotates over split(bytes), AudioRegion.split and trickling standard input; a fifth probe ends the stream one sample into the burst's last window.",
- "C07": " One in four windows is judged after a longer loud and a longer silent window by the same validator (history must not matter); directed large rows: windows of 8192..65536+ samples whose parts differ in level, and bytearray / memoryview / array / numpy windows with odd sample counts. The validator that split() / AudioRegion.split build from energy_threshold|eth (0, 0.0, negative, default by omission) and use_channel|uc is checked on one-window streams against the same exact oracle.",
- "C08": " The deciding point is derived from the stream itself (a token decided earlier may not be handed over at end of stream) and checked at generator hand-over and at callback entry; split() with 4410..16384-sample windows must request end of stream exactly once for every tail length. split() laziness is measured on five more inputs: an AudioReader, overlapping readers (aligned and unaligned tails, recording or not) and standard input with the bytes counted at the read calls; a region decided by a window may not be preceded by any further request, including one answered by end of stream.",
- "C09": " stdin is also served through a real io.BufferedReader over a raw stream with short reads (1, 3, window-1 bytes); recordings at 8/16 kHz make max_read sub-millisecond; windows of 19200 and 32769 samples and a 160 KB recording exercise lazy readers; AudioSource objects handed over with an advanced cursor; max_read and mr together (mr smaller and larger) on eager and lazy files. Containers also include upper / mixed case extensions (REC001.WAV, take.2.Wave, DUMP.RAW) and a real-pipe stdin; all files live under a directory whose name contains a dot.",
- "C10": " Rates 8 Hz and 16 kHz; source kinds include stdin with short reads and a buffer source whose cursor was advanced; directed large rows: blocks of 1024..40000 (70001) samples around block-multiple lengths at 8192 Hz. Recording readers are part of the source kinds; block_dur*rate just outside the 1e-9 band on either side of an integer (6 rates), incl. products just below 1 that must be rejected; readers built one after the other on a path rewritten in place with a new or a preserved modification time.",
- "C11": " stdin is explored under every way of cutting its byte stream into short reads (contents <= 6 bytes) and trickle patterns; position_ms / position_s tables at 8, 16, 44.1 and 48 kHz on exact sample instants; directed large rows: 40011-sample contents with reads of 1..65536 samples (all sequences of 3 reads). In-memory loaders (from_file eager wav/raw) and sources living next to sibling sources with other parameters go through the same GRAPH; a named pipe given as a raw file; a real-pipe stdin; loaders on 2^16+1 and 2^20+3 samples; files rewritten in place (new / preserved mtime; lazy source made before the rewrite).",
- "C12": " is_alive, Event, Lock, bounded queues and qsize()/empty()/full() are modelled as scheduling points; stereo input with channel selection given by long name and alias; a race-directed pass (happens-before detector over worker attributes, then a line-level search in the racing functions); directed starvation schedules on 300 and 150 detections with 2-3 observers (not exhaustive). Environment faults the other threads must survive under every interleaving: a reader that fails on close at end of stream, a joiner dying of a full disk at its k-th write, detection files of an earlier run already present (also through the command line); a PlayerWorker with a sound-card-like player.",
- "C13": " Also: overlapping windows under the stream saver, a stop with saver + joiner, silences of 1.6 and 3.7 samples, a race-directed line-level pass, and directed starvation runs on 300 blocks at 10 Hz and on a 16 kHz recording (> 64 KiB of joined audio). Extension-less output names under a dotted directory; encoder keyword arguments handed to the region saver; stale files of an earlier run.",
+ "C07": " One in four windows is judged after a longer loud and a longer silent window by the same validator (history must not matter); directed large rows: windows of 8192..65536+ samples whose parts differ in level, and bytearray / memoryview / array / numpy windows with odd sample counts. The validator that split() / AudioRegion.split build from energy_threshold|eth (0, 0.0, negative, default by omission) and use_channel|uc is checked on one-window streams against the same exact oracle. Thresholds NaN, +inf, -inf and -250 (never / never / always / always active), through the validator and through split().",
+ "C08": " The deciding point is derived from the stream itself (a token decided earlier may not be handed over at end of stream) and checked at generator hand-over and at callback entry; split() with 4410..16384-sample windows must request end of stream exactly once for every tail length. split() laziness is measured on five more inputs: an AudioReader, overlapping readers (aligned and unaligned tails, recording or not) and standard input with the bytes counted at the read calls; a region decided by a window may not be preceded by any further request, including one answered by end of stream. A raw file read with large_file=True that grows after the first region was yielded; a recording reader as input.",
+ "C09": " stdin is also served through a real io.BufferedReader over a raw stream with short reads (1, 3, window-1 bytes); recordings at 8/16 kHz make max_read sub-millisecond; windows of 19200 and 32769 samples and a 160 KB recording exercise lazy readers; AudioSource objects handed over with an advanced cursor; max_read and mr together (mr smaller and larger) on eager and lazy files. Containers also include upper / mixed case extensions (REC001.WAV, take.2.Wave, DUMP.RAW) and a real-pipe stdin; all files live under a directory whose name contains a dot. wav files with chunks before and after the audio (and a pad byte); windows that are no whole number of microseconds.",
+ "C10": " Rates 8 Hz and 16 kHz; source kinds include stdin with short reads and a buffer source whose cursor was advanced; directed large rows: blocks of 1024..40000 (70001) samples around block-multiple lengths at 8192 Hz. Recording readers are part of the source kinds; block_dur*rate just outside the 1e-9 band on either side of an integer (6 rates), incl. products just below 1 that must be rejected; readers built one after the other on a path rewritten in place with a new or a preserved modification time. A redundant open() after the first block and after the end; wav files with extra chunks; recording readers with max_read over a named pipe that trickles pieces which are not whole samples.",
+ "C11": " stdin is explored under every way of cutting its byte stream into short reads (contents <= 6 bytes) and trickle patterns; position_ms / position_s tables at 8, 16, 44.1 and 48 kHz on exact sample instants; directed large rows: 40011-sample contents with reads of 1..65536 samples (all sequences of 3 reads). In-memory loaders (from_file eager wav/raw) and sources living next to sibling sources with other parameters go through the same GRAPH; a named pipe given as a raw file; a real-pipe stdin; loaders on 2^16+1 and 2^20+3 samples; files rewritten in place (new / preserved mtime; lazy source made before the rewrite). wav files with extra chunks (GRAPH kinds and the large loaders); the lazy raw source on a trickling named pipe.",
+ "C12": " is_alive, Event, Lock, bounded queues and qsize()/empty()/full() are modelled as scheduling points; stereo input with channel selection given by long name and alias; a race-directed pass (happens-before detector over worker attributes, then a line-level search in the racing functions); directed starvation schedules on 300 and 150 detections with 2-3 observers (not exhaustive). Environment faults the other threads must survive under every interleaving: a reader that fails on close at end of stream, a joiner dying of a full disk at its k-th write, detection files of an earlier run already present (also through the command line); a PlayerWorker with a sound-card-like player. The producer started before its consumers; a caller that waits for the tokenizer only (interpreter exit modelled, daemon threads are killed); strict / drop split variants; digital silence with thresholds at and below the floor; a dead observer followed by 300 detections.",
+ "C13": " Also: overlapping windows under the stream saver, a stop with saver + joiner, silences of 1.6 and 3.7 samples, a race-directed line-level pass, and directed starvation runs on 300 blocks at 10 Hz and on a 16 kHz recording (> 64 KiB of joined audio). Extension-less output names under a dotted directory; encoder keyword arguments handed to the region saver; stale files of an earlier run. Readers whose blocks differ in length mid-stream; late start of the savers; an output format whose encoder cannot be run (fallback wav must survive the worker).",
  "C14": " Also: stops with region-saving, joining and printing observers, 8-bit mono/3-channel audio, raw export (-O x.raw), a directed starvation run stopping a saver 300 blocks behind, and the race-directed pass. The number of source reads started when the stop request reached the tokenizer worker is recorded: more than one read begun afterwards is reading on after the stop; stops deep inside silences with plenty of stream left; a PlayerWorker observer whose player fails once stopped.",
- "C15": " Also: 2100 detections in one run (ids keep counting), --printf templates mixing typed escapes with non-ASCII text, and the natural end of the program under every interleaving with one timeout (no Ctrl-C). -j with durations that are not a whole number of samples; --printf templates starting with '@', '+'; a second run over the first run's -o files.",
- "C16": " Also: slices of slices (children produced by [], seconds, millis, / must behave like freshly built regions, incl. len/duration of their views), wrongly typed bounds that are falsy (0.0, '', [], ()), zero steps, type errors on an empty region and right after the correctly typed twin request; directed large rows: 70001-sample regions and a region above 16 MiB. Every length 0..2100 at ten rates (len, duration, negative bounds); views that outlive every other reference to their region, across garbage collections.",
- "C17": " Also: == ignores a region's start time (small and 70001-sample regions); directed large rows: division into up to 70002 pieces, joins and sums of 1..1024 regions (counts around powers of two), 4097-fold repetition. region / k for every length 1..2100 at five rates; split_and_join_with_silence() against silence.join(split regions) for 0..3 detections.",
- "C18": " Also: exists_ok=False with a placeholder template, to_file() from bytearray / memoryview / array / numpy buffers, tie instants (the statement's round(s*rate) is taken literally); directed large rows: skips around 1024/4096/8192 (65536) samples on multi-channel audio, numpy() on 3/5/6/7-channel regions beyond 65536 values. A path saved three times with a source object made before / between the saves and opened afterwards; encoder keyword arguments given to save(); all files under a dotted directory.",
- "C19": " Also: sources whose cursor was advanced before the reader was built, more than 1024 / 2048 reads before the rewind (read_many steps), blocks of 1024 / 4096 samples.",
- "C20": " Second uses rotate over a list run, a generator run and a generator requested before the first use; validators are re-asked after 130..2100 other distinct windows and across windows of different lengths; recorders (with and without overlap) whose first pass was abandoned after j regions; two live splits of the same region object in every interleaving. Repeated splits of recorders whose max_read lies beyond / inside the audio; calculate_energy() on the caller's own arrays three times; a StringDataSource given other strings with set_data().",
+ "C15": " Also: 2100 detections in one run (ids keep counting), --printf templates mixing typed escapes with non-ASCII text, and the natural end of the program under every interleaving with one timeout (no Ctrl-C). -j with durations that are not a whole number of samples; --printf templates starting with '@', '+'; a second run over the first run's -o files. -u 1 / -1 on mono input; -j 0 without -O; a 300-detection run with a dead region saver.",
+ "C16": " Also: slices of slices (children produced by [], seconds, millis, / must behave like freshly built regions, incl. len/duration of their views), wrongly typed bounds that are falsy (0.0, '', [], ()), zero steps, type errors on an empty region and right after the correctly typed twin request; directed large rows: 70001-sample regions and a region above 16 MiB. Every length 0..2100 at ten rates (len, duration, negative bounds); views that outlive every other reference to their region, across garbage collections. Instants far outside the region (+-1e6 s, +-1e9 ms) at every length 0..2100.",
+ "C17": " Also: == ignores a region's start time (small and 70001-sample regions); directed large rows: division into up to 70002 pieces, joins and sums of 1..1024 regions (counts around powers of two), 4097-fold repetition. region / k for every length 1..2100 at five rates; split_and_join_with_silence() against silence.join(split regions) for 0..3 detections. Data shorter than one sample and misaligned data with a start argument are rejected; a refused combination is refused again on retry and leaves the operands usable.",
+ "C18": " Also: exists_ok=False with a placeholder template, to_file() from bytearray / memoryview / array / numpy buffers, tie instants (the statement's round(s*rate) is taken literally); directed large rows: skips around 1024/4096/8192 (65536) samples on multi-channel audio, numpy() on 3/5/6/7-channel regions beyond 65536 values. A path saved three times with a source object made before / between the saves and opened afterwards; encoder keyword arguments given to save(); all files under a dotted directory. Bare relative names in the current directory, upper / mixed case extensions, wav files with extra chunks through load(skip, max_read).",
+ "C19": " Also: sources whose cursor was advanced before the reader was built, more than 1024 / 2048 reads before the rewind (read_many steps), blocks of 1024 / 4096 samples. One configuration in three also explores a redundant open() and close-before-the-first-rewind; recording readers over a trickling named pipe.",
+ "C20": " Second uses rotate over a list run, a generator run and a generator requested before the first use; validators are re-asked after 130..2100 other distinct windows and across windows of different lengths; recorders (with and without overlap) whose first pass was abandoned after j regions; two live splits of the same region object in every interleaving. Repeated splits of recorders whose max_read lies beyond / inside the audio; calculate_energy() on the caller's own arrays three times; a StringDataSource given other strings with set_data(). An abandoned generator finalised from inside the next run (at its k-th read); an old split of a recorder closed while the new split runs.",
 }
 
 NOT_YET = {}
